@@ -45,7 +45,9 @@ class WriterModel:
                 k = const_str(n.targets[0].slice)
                 if k:
                     self.attrs.setdefault(k, []).append(n)
-        # the axis loop
+        # the axis loops (the work may be split over several of them)
+        self.loops = []
+        self.loop_of = {}
         for n in f.body:
             if isinstance(n, ast.For):
                 vals = self.ce.ev(n.iter, TABLE) if not (
@@ -54,34 +56,64 @@ class WriterModel:
                 if isinstance(n.iter, ast.Call) and \
                         call_name(n.iter) == 'zip':
                     cols = [self.ce.ev(a, TABLE) for a in n.iter.args]
-                    if all(c is not UNKNOWN for c in cols):
+                    # a column that is not a literal (e.g. values collected
+                    # beforehand) does not matter for the paths
+                    known = [c for c in cols if c is not UNKNOWN]
+                    if known and all(isinstance(c, (list, tuple))
+                                     for c in known):
+                        width = min(len(c) for c in known)
+                        cols = [c if c is not UNKNOWN else [UNKNOWN] * width
+                                for c in cols]
                         vals = list(zip(*cols))
                 if vals is not UNKNOWN and vals and isinstance(
                         vals, (list, tuple)) and all(
                         v in AXES or (isinstance(v, tuple) and
                                       v[0] in AXES) for v in vals):
-                    self.loop = n
                     names = target_names(n.target)
+                    envs = []
                     for v in vals:
                         env = dict(zip(names, v if isinstance(v, tuple)
                                        else (v,)))
-                        self.axis_pairs.append(env)
-        if self.loop is None:
+                        env = {k: x for k, x in env.items()
+                               if x is not UNKNOWN}
+                        envs.append(env)
+                    self.loops.append((n, envs))
+        if not self.loops:
             raise AnalysisError('to_hdf5: axis loop over %s not found'
                                 % (AXES,))
-        loop = self.loop
-        for env in self.axis_pairs:
-            grpvars = {}
+
+        def makes_axis_group(lp):
+            return any(isinstance(x, ast.Call) and isinstance(
+                x.func, ast.Attribute) and x.func.attr == 'create_group'
+                and dotted(x.func.value) == root for x in ast.walk(lp))
+        main = [le for le in self.loops if makes_axis_group(le[0])] or \
+            self.loops[:1]
+        self.loop, self.axis_pairs = main[0]
+        carried = {}
+        for loop, envs in self.loops:
+          for k_env, env in enumerate(envs):
+            # a handle bound in an earlier loop and not re-bound here still
+            # denotes the group of that loop's last iteration
+            grpvars = dict(carried)
             for n in ast.walk(loop):
                 if isinstance(n, ast.Assign) and isinstance(
                         n.value, ast.Call) and isinstance(
                         n.value.func, ast.Attribute) and \
-                        n.value.func.attr == 'create_group' and \
+                        n.value.func.attr in ('create_group',
+                                              'require_group') and \
                         dotted(n.value.func.value) == root:
                     p = self.ce.ev(n.value.args[0], TABLE, env)
                     if p is not UNKNOWN:
                         grpvars[dotted(n.targets[0])] = p
-                        self.groups[p] = n
+                        if n.value.func.attr == 'create_group':
+                            self.groups[p] = n
+                elif isinstance(n, ast.Assign) and isinstance(
+                        n.value, ast.Subscript) and \
+                        dotted(n.value.value) == root:
+                    # grp = h5grp[axis]: a handle on a group made earlier
+                    p = self.ce.ev(n.value.slice, TABLE, env)
+                    if p is not UNKNOWN and isinstance(p, str):
+                        grpvars[dotted(n.targets[0])] = p
             for n in ast.walk(loop):
                 if isinstance(n, ast.Call) and isinstance(
                         n.func, ast.Attribute) and \
@@ -96,15 +128,19 @@ class WriterModel:
                         else:
                             continue
                     full = '%s/%s' % (grpvars[dotted(n.func.value)], p)
+                    self.loop_of[id(n)] = loop
                     if n.func.attr == 'create_group':
                         self.groups[full] = n
                     else:
                         self.datasets.setdefault(full, []).append(n)
                         self.ds_info.setdefault(full, []).append(
-                            {'call': n, 'env': env,
+                            {'call': n, 'env': env, 'k': k_env,
+                             'loop': loop,
                              'dtype': kwarg(n, 'dtype'),
                              'data': kwarg(n, 'data'),
                              'shape': kwarg(n, 'shape')})
+            if k_env == len(envs) - 1:
+                carried = dict(grpvars)
         # formatters create metadata/<category>
         self.formatter_paths = {}
         for q in ('general_formatter', 'vlen_list_of_str_formatter'):
@@ -291,7 +327,7 @@ def rule_ag_spec(repo, col):
             st = _stmt_of(repo.mod(TABLE), c)
             if cfg.node(st) is not None:
                 loopcfg_nodes.add(cfg.node(st))
-        head = cfg.node(w.loop)
+        head = cfg.node(w.loop_of.get(id(calls[0]), w.loop))
         # a path from loop head back to the loop head (one iteration) or to
         # the exit that avoids all creates
         leak = _iteration_avoids(cfg, head, loopcfg_nodes)
@@ -466,12 +502,30 @@ def rule_h5_writer_axes(repo, col):
     pairs = {'matrix/data': 'self._data.data',
              'matrix/indices': 'self._data.indices',
              'matrix/indptr': 'self._data.indptr'}
+    def _matrix_alias(info):
+        """data=X.attr with X = self._data taken, in the same loop body,
+        after the matrix was converted to the loop's layout: read as
+        self._data.attr"""
+        d = info['data']
+        if not (isinstance(d, ast.Attribute) and isinstance(d.value,
+                                                            ast.Name)):
+            return None
+        lp = info.get('loop') or loop
+        defs = [n for n in ast.walk(lp) if isinstance(n, ast.Assign) and
+                len(n.targets) == 1 and dotted(n.targets[0]) == d.value.id]
+        if len(defs) != 1 or dotted(defs[0].value) != 'self._data':
+            return None
+        if conv is None or defs[0].lineno <= conv.lineno or \
+                defs[0] not in lp.body or conv not in lp.body:
+            return None
+        return 'self._data.%s' % d.attr
     for path, infos in w.ds_info.items():
         suffix = path.split('/', 1)[1]
         if suffix in pairs:
             for info in infos:
-                col.check(info['data'] is not None and
-                          dotted(info['data']) == pairs[suffix], rule, TABLE,
+                col.check(info['data'] is not None and (
+                          dotted(info['data']) == pairs[suffix] or
+                          _matrix_alias(info) == pairs[suffix]), rule, TABLE,
                           'Table.to_hdf5', 'array:%s' % path, info['call'],
                           'writes %s' % pairs[suffix],
                           "'%s' is written from %s" % (
@@ -492,6 +546,125 @@ def rule_h5_writer_axes(repo, col):
                               'ids-content:%s' % path, info['call'],
                               'one entry per id of the loop axis, in order',
                               'ids dataset is not built from the axis ids')
+
+
+def rule_h5_group_md_axis(repo, col):
+    """AX-H5GMD: the values written under `<axis>/group-metadata/` are the
+    group metadata of that same axis.  The group is the one the handle
+    denotes in that iteration (a handle left over from an earlier loop
+    denotes that loop's last group); the values are traced from `data=`
+    back to `self.group_metadata(X)`, directly or through a list collected
+    by an earlier loop over the axes and zipped in."""
+    rule = 'AX-H5GMD'
+    w = WriterModel(repo)
+    f = w.func
+    ce = w.ce
+
+    def defs_of(name):
+        out = []
+        for n in body_walk(f):
+            if isinstance(n, ast.Assign) and any(
+                    name in target_names(t) for t in n.targets):
+                out.append(n)
+        return out
+
+    def gmd_call(e):
+        for x in ast.walk(e):
+            if isinstance(x, ast.Call) and dotted(x.func) in (
+                    'self.group_metadata',):
+                return x
+        return None
+
+    def collected(name):
+        """axes, in order, of the group metadata appended to list `name`
+        by an earlier loop over the axes"""
+        for loop, envs in w.loops:
+            for n in ast.walk(loop):
+                if isinstance(n, ast.Call) and isinstance(
+                        n.func, ast.Attribute) and n.func.attr == 'append' \
+                        and dotted(n.func.value) == name and n.args:
+                    src = n.args[0]
+                    c = gmd_call(src)
+                    if c is None and isinstance(src, ast.Name):
+                        for d in ast.walk(loop):
+                            if isinstance(d, ast.Assign) and src.id in \
+                                    target_names(d.targets[0]):
+                                c = c or gmd_call(d.value)
+                    if c is None:
+                        return None
+                    a = kwarg(c, 'axis') or (c.args[0] if c.args else None)
+                    out = []
+                    for env in envs:
+                        v = ce.ev(a, TABLE, env) if a is not None else UNKNOWN
+                        out.append(v if v is not UNKNOWN else None)
+                    return out
+        return None
+
+    def source_axis(info):
+        """axis whose group metadata reaches data= in this iteration"""
+        loop, env, k = info['loop'], info['env'], info['k']
+        d = info['data']
+        names = {x.id for x in ast.walk(d) if isinstance(x, ast.Name)} \
+            if d is not None else set()
+        seen = set()
+        for _ in range(6):
+            new = set()
+            for nm in names - seen:
+                seen.add(nm)
+                # loop / comprehension targets inside the axis loop
+                for n in ast.walk(loop):
+                    if isinstance(n, ast.For) and n is not loop and \
+                            nm in target_names(n.target):
+                        new |= {x.id for x in ast.walk(n.iter)
+                                if isinstance(x, ast.Name)}
+                    if isinstance(n, ast.Assign) and any(
+                            nm in target_names(t) for t in n.targets):
+                        c = gmd_call(n.value)
+                        if c is not None:
+                            a = kwarg(c, 'axis') or (
+                                c.args[0] if c.args else None)
+                            v = ce.ev(a, TABLE, env) if a is not None \
+                                else UNKNOWN
+                            return v if v is not UNKNOWN else None
+                        new |= {x.id for x in ast.walk(n.value)
+                                if isinstance(x, ast.Name)}
+                # the axis loop's own target fed from a zipped column
+                if nm in target_names(loop.target) and isinstance(
+                        loop.iter, ast.Call) and call_name(
+                        loop.iter) == 'zip':
+                    pos = target_names(loop.target).index(nm)
+                    if pos < len(loop.iter.args) and isinstance(
+                            loop.iter.args[pos], ast.Name):
+                        axes = collected(loop.iter.args[pos].id)
+                        if axes and k < len(axes):
+                            return axes[k]
+                        return None
+            names |= new
+        return None
+
+    n = 0
+    for path, infos in sorted(w.ds_info.items()):
+        if '/group-metadata/' not in path:
+            continue
+        group_axis = path.split('/', 1)[0]
+        for info in infos:
+            n += 1
+            role = 'group-md:%s#%d' % (group_axis, info['k'])
+            src = source_axis(info)
+            if src is None:
+                col.unknown(rule, TABLE, 'Table.to_hdf5', role, info['call'],
+                            'origin of the written group metadata not '
+                            'resolved')
+                continue
+            col.check(src == group_axis, rule, TABLE, 'Table.to_hdf5', role,
+                      info['call'], 'the %s group metadata goes to the %s '
+                      'group' % (src, group_axis),
+                      "the %s group metadata is written under '%s': each "
+                      "axis' group metadata (e.g. a tree) ends up in the "
+                      'wrong group / is lost' % (src, path))
+    col.soft(n >= 1, rule, TABLE, 'Table.to_hdf5', 'instances', f,
+             '%d group-metadata writes' % n,
+             'no group-metadata dataset creation resolved')
 
 
 def rule_h5_nnz(repo, col):
@@ -988,6 +1161,7 @@ def rule_h5_fwd(repo, col):
 
 
 RULE_TEXT = {
+    'AX-H5GMD': rule_h5_group_md_axis.__doc__,
     'AG-H5KEYS': rule_ag_h5keys.__doc__,
     'AG-SPEC': rule_ag_spec.__doc__,
     'AX-MATOP': rule_h5_writer_axes.__doc__,
